@@ -18,8 +18,8 @@ import (
 	"go/constant"
 	"go/token"
 	"go/types"
-	"sort"
 	"strings"
+	"sync"
 
 	"golang.org/x/tools/go/cfg"
 )
@@ -116,6 +116,7 @@ type Interp struct {
 	ranges map[ast.Node]*ast.RangeStmt
 	res    *IResult
 	inputs map[types.Object]bool
+	brs    map[*cfg.Block]Branch
 }
 
 type istate struct {
@@ -151,6 +152,7 @@ func (ip *Interp) Run() *IResult {
 	}
 	ip.res = &IResult{Consumed: map[string]bool{}, LenCmp: map[string][]int64{}}
 	ip.ranges = map[ast.Node]*ast.RangeStmt{}
+	ip.brs = map[*cfg.Block]Branch{}
 	ast.Inspect(ip.F.Body, func(n ast.Node) bool {
 		if rs, ok := n.(*ast.RangeStmt); ok {
 			ip.ranges[rs.X] = rs
@@ -189,20 +191,55 @@ func (ip *Interp) Run() *IResult {
 	return ip.res
 }
 
+func fnv(h uint64, s string) uint64 {
+	for i := 0; i < len(s); i++ {
+		h ^= uint64(s[i])
+		h *= 1099511628211
+	}
+	return h
+}
+
+// mix64 is a non-linear finaliser (splitmix64): entry digests are summed, so
+// they must not be affine in the values.
+func mix64(x uint64) uint64 {
+	x ^= x >> 30
+	x *= 0xbf58476d1ce4e5b9
+	x ^= x >> 27
+	x *= 0x94d049bb133111eb
+	x ^= x >> 31
+	return x
+}
+
+// heapKey is an order-independent digest of the state.
 func heapKey(s *istate) string {
-	ks := make([]string, 0, len(s.heap))
-	for k := range s.heap {
-		ks = append(ks, k)
+	var sum uint64
+	for k, v := range s.heap {
+		h := fnv(14695981039346656037, k)
+		h = mix64(h + uint64(v.K)*0x9e3779b97f4a7c15)
+		h = mix64(h + uint64(v.I)*0xbf58476d1ce4e5b9)
+		h = mix64(h + uint64(v.L)*0x94d049bb133111eb)
+		h = mix64(h + uint64(v.C)*0xd6e8feb86659fd93)
+		h = mix64(fnv(h, v.Ref))
+		sum += h
 	}
-	sort.Strings(ks)
-	var b strings.Builder
-	fmt.Fprintf(&b, "%d|%v|", s.blk.Index, s.tainted)
-	for _, k := range ks {
-		v := s.heap[k]
-		fmt.Fprintf(&b, "%s=%c%d,%d,%d,%s;", k, v.K, v.I, v.L, v.C, v.Ref)
+	t := uint64(14695981039346656037)
+	for _, e := range s.trace {
+		t = fnv(t, e) * 31
 	}
-	b.WriteString(strings.Join(s.trace, ","))
-	return b.String()
+	var b [26]byte
+	put := func(off int, x uint64) {
+		for i := 0; i < 8; i++ {
+			b[off+i] = byte(x >> (8 * i))
+		}
+	}
+	put(0, sum)
+	put(8, t)
+	put(16, uint64(s.blk.Index))
+	if s.tainted {
+		b[24] = 1
+	}
+	b[25] = byte(len(s.heap))
+	return string(b[:])
 }
 
 // runBlock executes the rest of a block and returns the successor states.
@@ -231,7 +268,11 @@ func (ip *Interp) runBlock(st *istate, visited map[string]bool) (next []*istate)
 			}
 		}
 	}()
-	br := ip.g.BranchOf(blk)
+	br, cached := ip.brs[blk]
+	if !cached {
+		br = ip.g.BranchOf(blk)
+		ip.brs[blk] = br
+	}
 	n := len(blk.Nodes)
 	last := n
 	if len(blk.Succs) == 2 && (br.Kind == BrCond || br.Kind == BrCase) {
@@ -265,6 +306,10 @@ func (ip *Interp) runBlock(st *istate, visited map[string]bool) (next []*istate)
 		return []*istate{st}
 	}
 	ip.res.Steps++
+	if last < n && ip.Stop != nil && ip.Stop(blk.Nodes[last]) {
+		ip.res.Stops = append(ip.res.Stops, IStop{Node: blk.Nodes[last], Tainted: st.tainted, Trace: st.trace})
+		return nil
+	}
 	var outs []condOut
 	switch br.Kind {
 	case BrCond:
@@ -364,7 +409,16 @@ func (ip *Interp) rangeStep(st *istate, rs *ast.RangeStmt) []condOut {
 // ---------------------------------------------------------------------------
 // locations
 
-func varKey(o types.Object) string { return fmt.Sprintf("v%d:%s", o.Pos(), o.Name()) }
+var varKeys sync.Map // types.Object -> string
+
+func varKey(o types.Object) string {
+	if k, ok := varKeys.Load(o); ok {
+		return k.(string)
+	}
+	k := fmt.Sprintf("v%d:%s", o.Pos(), o.Name())
+	varKeys.Store(o, k)
+	return k
+}
 
 // lvalue returns the heap key of an addressable expression (variables and
 // field paths); pretty is the input-style name ("p.Data").
@@ -788,8 +842,8 @@ func (ip *Interp) compare(op token.Token, a, b IVal, at ast.Expr) IVal {
 			ip.res.LenCmp[pr[0].Tag[4:]] = append(ip.res.LenCmp[pr[0].Tag[4:]], pr[1].I)
 		}
 	}
-	env := (a.known() || (a.K == 'u' && a.Env)) && (b.known() || (b.K == 'u' && b.Env))
-	return IVal{K: 'u', Env: env}
+	free := func(v IVal) bool { return v.K != 'u' || v.Env }
+	return IVal{K: 'u', Env: free(a) && free(b)}
 }
 
 func b2i(b bool) int64 {
@@ -1190,7 +1244,12 @@ func (ip *Interp) call(st *istate, call *ast.CallExpr) []IVal {
 	if ip.OnCall != nil {
 		event, over = ip.OnCall(call, args)
 		if event != "" {
-			st.trace = append(append([]string(nil), st.trace...), event)
+			// more than three consecutive repetitions add nothing (and would
+			// keep loop states apart forever)
+			n := len(st.trace)
+			if !(n >= 3 && st.trace[n-1] == event && st.trace[n-2] == event && st.trace[n-3] == event) {
+				st.trace = append(append([]string(nil), st.trace...), event)
+			}
 		}
 	}
 	if over != nil {
